@@ -2,13 +2,16 @@
    Statements only; proofs are `exact <lemma>` from LInv.v / LProps.v. *)
 From Coq Require Import List ZArith QArith Bool.
 Import ListNotations.
-From KT Require Import Metrics Lifecycle LInv LProps LifeCorr.
+From KT Require Import Metrics Lifecycle LInv LProps LStrong LifeCorr.
 
 (* Every state reachable by any sequence of create / update / end / save+reload operations, for ANY populate_space,
    scoring function, subclass hooks and payload type, satisfies the invariant Inv (LInv.v):
    ids are 0..n-1 in start order; ongoing is injective in tuner and in trial and maps to RUNNING trials;
-   every trial is in exactly one of {ongoing, retry queue, end_order}; end_order has no duplicates and holds exactly the
-   COMPLETED/FAILED trials; a COMPLETED trial has a non-NaN score; trial files agree with memory for ended trials. *)
+   ongoing, retry queue and end_order are pairwise disjoint and duplicate-free; every trial is handed out, queued, or has
+   ended (status COMPLETED/FAILED); end_order holds only ended trials; a COMPLETED trial has a non-NaN score; trial files
+   agree with memory for ended trials. Inv also holds of every state a restart rebuilds after a crash at any point
+   (C08). That end_order lists EVERY ended trial - so that every trial is in exactly one of the three - is
+   C01_listed / C01_exactly_one below. *)
 Theorem C01_lifecycle :
   forall (A V Sc : Type) (vdef : V) (score_fn : V -> scored Sc)
          (populate : A -> list (trial V Sc) -> bool -> tid -> A * status * V)
@@ -17,6 +20,20 @@ Theorem C01_lifecycle :
   abort_early c = false ->
   Forall (fun rs => Inv (snd rs)) (run vdef score_fn populate hook_end hook_end_abort hook_reload reissue c (init a) ops).
 Proof. exact @LInv.C01_lifecycle. Qed.
+
+Theorem C01_listed :
+  forall (A V Sc : Type) (vdef : V) (score_fn : V -> scored Sc)
+         (populate : A -> list (trial V Sc) -> bool -> tid -> A * status * V)
+         (hook_end hook_end_abort : A -> tid -> V -> A) (hook_reload : A -> A) (reissue : V -> V)
+         (c : cfg) (a : A) (ops : list (@op V)),
+  abort_early c = false ->
+  Forall (fun rs => Listed (snd rs)) (run vdef score_fn populate hook_end hook_end_abort hook_reload reissue c (init a) ops).
+Proof. exact @LStrong.listed_run. Qed.
+
+Theorem C01_exactly_one :
+  forall (A V Sc : Type) (s : @ostate A V Sc) (id : nat),
+  Inv s -> Listed s -> (id < length (trials s))%nat -> In id (onids s) \/ In id (retryq s) \/ In id (end_order s).
+Proof. exact @LStrong.cover3. Qed.
 
 (* a tuner that asks again before finishing gets the same trial back and nothing changes *)
 Theorem C01_same_trial :
@@ -33,6 +50,13 @@ Theorem C01_never_reissue_final :
   Inv s -> do_create vdef populate reissue c s tu = (s', RTrial id RUNNING v) -> ~ In id (end_order s).
 Proof. exact @LProps.C01_never_reissue_final. Qed.
 
+(* ... listed in end_order or not (the states rebuilt after a crash) *)
+Theorem C01_never_reissue_ended :
+  forall (A V Sc : Type) (vdef : V) (populate : A -> list (trial V Sc) -> bool -> tid -> A * status * V) (reissue : V -> V)
+         (c : cfg) (s s' : @ostate A V Sc) (tu : tuner) (id : tid) (v : V),
+  Inv s -> do_create vdef populate reissue c s tu = (s', RTrial id RUNNING v) -> ~ finalat s id.
+Proof. exact @LStrong.never_reissue_ended. Qed.
+
 (* non-vacuity: three tuners, a NaN objective, a retry, a FAILED trial and a reload *)
 Example C01_example :
   let c := {| max_trials := Some 3%nat; max_retries := 1; max_consec := 9; abort_early := false |} in
@@ -44,5 +68,8 @@ Example C01_example :
 Proof. vm_compute. repeat split. Qed.
 
 Print Assumptions C01_lifecycle.
+Print Assumptions C01_listed.
+Print Assumptions C01_exactly_one.
+Print Assumptions C01_never_reissue_ended.
 Print Assumptions C01_same_trial.
 Print Assumptions C01_never_reissue_final.
